@@ -360,6 +360,14 @@ func runC03(c *eng.Ctx) {
 	// inside the critical section that flips the flag, so that a directly delivered event cannot overtake them
 	r10 := c.Rule("C03.R10", "B+A+C", "enableKubeEventCb: under eventBufLock sets the flag, replays eventBuf in ascending order through putEvent before clearing it (tasks are queued in the order the events were received)", 5)
 	runC01R5(c, r10)
+
+	// ---- R11: a task that is run outside the queues (an admission or conversion request is answered by calling the
+	// task handler directly from the HTTP goroutine) is combined with no queue: it has no queue name, the lookup of
+	// "" finds no queue, and the combine step is given exactly the queue looked up by the task's own queue name.
+	// Otherwise the HTTP goroutine takes tasks out of the main queue and runs their contexts while the main queue's
+	// worker is in the middle of its own task.
+	r11 := c.Rule("C03.R11", "D:provenance", "tasks run outside a queue stay outside: GetByName is a pure lookup by its argument, taskHandleHookRun hands the combine step GetByName(t.GetQueueName()), the webhook handlers create their task without a queue name", 4)
+	runOutsideQueueTasks(c, r11)
 }
 
 func isParamOfFunc(f *eng.Func, o types.Object) bool {
@@ -427,4 +435,120 @@ func runC03R5(c *eng.Ctx, r *eng.RuleCtx) {
 	checkLit(pkgCtrl+".(*kubernetesBindingsController).HandleEvent", "BindingExecutionInfo", "QueueName", func(info *types.Info, e ast.Expr) bool { return eng.IsField(info, e, kubeQueue) }, "link.BindingConfig.Queue")
 	checkLit(pkgCtrl+".(*scheduleBindingsController).HandleEvent", "BindingExecutionInfo", "QueueName", func(info *types.Info, e ast.Expr) bool { return eng.IsField(info, e, linkQN) }, "link.QueueName")
 	checkLit(pkgCtrl+".(*scheduleBindingsController).EnableScheduleBindings", "ScheduleBindingToCrontabLink", "QueueName", func(info *types.Info, e ast.Expr) bool { return eng.IsField(info, e, schedQueue) }, "config.Queue")
+}
+
+// runOutsideQueueTasks is C03.R11, shared with C04.R7 and C14.R7 (a webhook run that swallows queued tasks also
+// discards their contexts when it fails, and relays a verdict computed from foreign contexts).
+func runOutsideQueueTasks(c *eng.Ctx, r11 *eng.RuleCtx) {
+	p := c.P
+	var withQN *types.Func
+	if f := r11.NeedFunc(pkgQueue + ".(*TaskQueueSet).GetByName"); f != nil {
+		info := f.Pkg.TypesInfo
+		queues := p.Field(pkgQueue, "TaskQueueSet", "Queues")
+		prm := f.Obj.Type().(*types.Signature).Params().At(0)
+		ok := len(eng.AssignedExprs(info, f.Decl.Body, prm)) == 0
+		nret := 0
+		eng.InspectNoLit(f.Decl.Body, func(n ast.Node) bool {
+			ret, isR := n.(*ast.ReturnStmt)
+			if !isR || len(ret.Results) != 1 {
+				return true
+			}
+			nret++
+			for _, src := range valueSources(info, f.Decl.Body, ret.Results[0], 3) {
+				if eng.IsNil(info, src) {
+					continue
+				}
+				ix, isIx := ast.Unparen(src).(*ast.IndexExpr)
+				if !isIx || !eng.IsField(info, ix.X, queues) || eng.SelObj(info, ix.Index) != types.Object(prm) {
+					ok = false
+				}
+			}
+			return true
+		})
+		r11.Check(ok && nret > 0, f.Key+" pure lookup", f.Decl.Pos(), "returns Queues[name] or nil, name as given", "GetByName does not return exactly the queue registered under the given name (e.g. it maps the empty name to the main queue): a task that is run outside the queues is treated as a task of that queue and combined with its tasks")
+	}
+	if f := r11.NeedFunc(pkgOp + ".(*ShellOperator).taskHandleHookRun"); f != nil {
+		info := f.Pkg.TypesInfo
+		combine := p.Method(pkgOp, "ShellOperator", "combineBindingContextForHook")
+		getByName := p.Method(pkgQueue, "TaskQueueSet", "GetByName")
+		getQN := func(e ast.Expr) bool {
+			cl, isC := ast.Unparen(e).(*ast.CallExpr)
+			if !isC || len(cl.Args) != 0 {
+				return false
+			}
+			o := eng.CalleeOf(info, cl)
+			return o != nil && o.Name() == "GetQueueName"
+		}
+		n, okAll := 0, true
+		for _, call := range callsDeep(info, f.Decl.Body, isObj(combine)) {
+			if len(call.Args) < 2 {
+				continue
+			}
+			n++
+			for _, src := range valueSources(info, f.Decl.Body, call.Args[1], 3) {
+				cl, isC := ast.Unparen(src).(*ast.CallExpr)
+				if !isC || !isCallTo(info, cl, getByName) || len(cl.Args) != 1 {
+					okAll = false
+					continue
+				}
+				for _, s2 := range valueSources(info, f.Decl.Body, cl.Args[0], 3) {
+					if !getQN(s2) {
+						okAll = false
+					}
+				}
+			}
+		}
+		r11.Check(okAll && n > 0, f.Key+" combine queue", f.Decl.Pos(), "combineBindingContextForHook(.., GetByName(t.GetQueueName()), ..)", "the queue whose tasks are combined into this run is not looked up by the task's own queue name (a default is substituted): a webhook task, which has no queue, then swallows tasks of that default queue")
+	}
+	if f := r11.NeedFunc(pkgOp + ".(*ShellOperator).combineBindingContextForHook"); f != nil {
+		// the tasks are removed from the queue that was searched: Filter is called on the queue looked up by the task's
+		// own queue name (or on the queue parameter, which R11 above ties to that name)
+		info := f.Pkg.TypesInfo
+		filter := p.Method(pkgQueue, "TaskQueue", "Filter")
+		getByName := p.Method(pkgQueue, "TaskQueueSet", "GetByName")
+		sig := f.Obj.Type().(*types.Signature)
+		n, okAll := 0, true
+		for _, call := range callsDeep(info, f.Decl.Body, isObj(filter)) {
+			sel, isS := ast.Unparen(call.Fun).(*ast.SelectorExpr)
+			if !isS {
+				continue
+			}
+			n++
+			for _, src := range valueSources(info, f.Decl.Body, sel.X, 3) {
+				isQueueParam := false
+				for i := 0; i < sig.Params().Len(); i++ {
+					if eng.SelObj(info, src) == types.Object(sig.Params().At(i)) {
+						isQueueParam = true
+					}
+				}
+				if isQueueParam {
+					continue
+				}
+				cl, isC := ast.Unparen(src).(*ast.CallExpr)
+				if !isC || !isCallTo(info, cl, getByName) || len(cl.Args) != 1 {
+					okAll = false
+					continue
+				}
+				if c2, isC2 := ast.Unparen(cl.Args[0]).(*ast.CallExpr); !isC2 || eng.CalleeOf(info, c2) == nil || eng.CalleeOf(info, c2).Name() != "GetQueueName" {
+					okAll = false
+				}
+			}
+		}
+		r11.Check(okAll && n > 0, f.Key+" filtered queue", f.Decl.Pos(), "the merged tasks are removed from the task's own queue", "the merged tasks are removed from another queue than the one the head task belongs to")
+	}
+	// webhook handlers: the task they build has no queue name
+	withQN = p.Method(pkgTask, "BaseTask", "WithQueueName")
+	for _, key := range []string{pkgOp + ".(*ShellOperator).initValidatingWebhookManager", pkgOp + ".(*ShellOperator).conversionEventHandler"} {
+		f := r11.NeedFunc(key)
+		if f == nil {
+			continue
+		}
+		info := f.Pkg.TypesInfo
+		calls := callsDeep(info, f.Decl.Body, isObj(withQN))
+		pos := f.Decl.Pos()
+		if len(calls) > 0 {
+			pos = calls[0].Pos()
+		}
+		r11.Check(withQN != nil && len(calls) == 0, f.Key+" no queue name", pos, "the task that answers the request carries no queue name", "the task that answers a webhook request is given a queue name although it is never queued: taskHandleHookRun then combines it with the tasks of that queue and deletes them from it, from the HTTP goroutine, while the queue's worker is running")
+	}
 }
